@@ -4,7 +4,7 @@
 From Coq Require Import List NArith.
 From Coq.Strings Require Import Byte.
 Import ListNotations.
-From SP Require Import Bytes BaseX Encodings Rand Params Msgpack Crypto Errors Packets Chunker Sign Verify Encrypt Decrypt Signcrypt Armor Streams.
+From SP Require Import Bytes BaseX Encodings Rand Params Msgpack Crypto Errors Packets Chunker Sign Verify Encrypt Decrypt Signcrypt Armor Streams KeyTrace.
 
 Definition m_byte_to_N := Byte.to_N.
 Definition m_bx_encode := BaseX.encode.
@@ -57,3 +57,9 @@ Fixpoint m_cr_run (sizes : list nat) (st : cr_state) : list (bytes * option err)
   end.
 Definition m_armor_stream := Streams.armor_stream.
 Definition m_bxe_session := Streams.bxe_session.
+
+(* ---- key-object call traces ---- *)
+Definition m_open_events := KeyTrace.open_events.
+Definition m_sc_open_events := KeyTrace.sc_open_events.
+Definition m_sign_attached_events := KeyTrace.sign_attached_events.
+Definition m_sign_detached_events := KeyTrace.sign_detached_events.
